@@ -204,6 +204,7 @@ impl BufferParser for Parser {
                         '8' => {
                             if let Some(saved_caret) = &self.saved_cursor_opt {
                                 *caret = saved_caret.clone();
+                                buf.terminal_state.limit_caret_pos(buf, caret);
                             }
                             Ok(CallbackAction::Update)
                         }
@@ -803,7 +804,10 @@ impl BufferParser for Parser {
                         self.save_cursor_position(caret);
                         return Ok(CallbackAction::NoUpdate);
                     }
-                    'u' => self.restore_cursor_position(caret),
+                    'u' => {
+                        self.restore_cursor_position(caret);
+                        buf.terminal_state.limit_caret_pos(buf, caret);
+                    }
                     'd' => {
                         // CSI Pn d
                         // VPA - Line position absolute
